@@ -1,10 +1,10 @@
 package main
 
 import (
-	"strings"
 	"bytes"
 	"fmt"
 	"math/rand"
+	"strings"
 	"sync"
 	"time"
 
